@@ -1,4 +1,4 @@
-import OdxVerif.Model.CodecSexp
+import OdxVerif.Model.DescSexp
 /-! line-protocol driver for the codec family (C01–C05, C08, C17); grammar in harness/odxgen/SEXP.md -/
 open OdxVerif OdxVerif.Codec OdxVerif.Sexp
 
@@ -38,8 +38,43 @@ def handleExtract (fs : List Sexp) : Option String := do
   | .ok (v, s) => pure s!"(ok {printIVal v} (cursor {s.cursorByte}))"
   | .error (e, _) => pure (errReply e)
 
+def strictOf (rest : List Sexp) : Bool :=
+  match Sexp.field1? rest "strict" with
+  | some (.atom "f") => false
+  | _ => true
+
+def trigOf (rest : List Sexp) : Option Bytes :=
+  (Sexp.field1? rest "trig").bind fun t => t.asAtom?.bind bytesOfHex?
+
+def handleEncode (desc pv : Sexp) (rest : List Sexp) : String :=
+  match parseComposite desc, parsePVal pv with
+  | some (_, ps), some v =>
+    (match encodeMessage ps v (trigOf rest) (strictOf rest) with
+     | .ok (msg, w) => s!"(ok {hexAtom msg} (warn {if w > 0 then "t" else "f"}))"
+     | .error e => errReply e)
+  | _, _ => "(bad-args)"
+
+def handleDecode (desc : Sexp) (msg : Sexp) (rest : List Sexp) : String :=
+  match parseComposite desc, msg.asAtom?.bind bytesOfHex? with
+  | some (_, ps), some m =>
+    (match decodeMessage ps m (strictOf rest) with
+     | .ok (v, n) => s!"(ok {printPVal v} (consumed {n}))"
+     | .error e => errReply e)
+  | _, _ => "(bad-args)"
+
 def handle (sx : Sexp) : String :=
   match sx with
+  | .list (.atom "encode" :: desc :: pv :: rest) => handleEncode desc pv rest
+  | .list (.atom "decode" :: desc :: msg :: rest) => handleDecode desc msg rest
+  | .list [.atom "staticlen", desc] =>
+    (match parseComposite desc with
+     | some (bs, ps) => (match (Dop.struct bs ps).staticBitLen with | some n => s!"(some {n})" | none => "(none)")
+     | none => "(bad-args)")
+  | .list (.atom "prefix" :: desc :: rest) =>
+    (match parseComposite desc with
+     | some (_, ps) => (match constPrefix ps ((trigOf rest).getD []) true with
+        | .ok b => s!"(ok {hexAtom b})" | .error e => errReply e)
+     | none => "(bad-args)")
   | .list (.atom "emplace" :: fs) => (handleEmplace fs).getD "(bad-args)"
   | .list (.atom "extract" :: fs) => (handleExtract fs).getD "(bad-args)"
   | _ => "(unsupported)"
